@@ -67,7 +67,14 @@ def c04_jobs():
                              cbmc=uw, route="finite", timeout=300, tier=tier, assumptions=[A_SIMD, A_CVC5]))
         T("n1", [], gen)
         T("n1.align1", ["VF_ALIGN=1"], gen)
-        T("n2", ["VF_T_NBLK=2"], gen)
+        if alg == "sha1":
+            T("n2", ["VF_T_NBLK=2"], gen)
+        for n in ((2, 3) if alg == "sha1" else ()):
+            jobs.append(dict(name="%s.T.chain%d" % (tag, n), harness="harness/C04/sha_T_chain.c", mode="plain",
+                             defines=base + ["VF_T_NBLK=%d" % n, "VF_T_FN=" + gen], functions=[gen], backend="cvc5",
+                             cbmc=["--unwind", str(max(rounds, blk) + 2), "--unwinding-assertions"], route="bounded",
+                             bound="%d consecutive blocks in one call (the block loop is the same code for every count)" % n,
+                             timeout=300, assumptions=[A_SIMD, A_CVC5]))
         T("alias", ["VF_T_ALIAS"], gen)
         T("dispatch", [], disp)  # the dispatcher with the generic transform inlined
     jobs += iuf_jobs("sha1", ALGS["sha1"], None)
